@@ -5,6 +5,7 @@ import json
 import os
 import random
 import sys
+import time
 import traceback
 from collections import Counter, defaultdict
 
@@ -65,6 +66,10 @@ class Ctx:
         self._classifiers = classifiers or {}
         self.hostile = None
         self.replaying = False
+        try:
+            self.process_state = json.loads(os.environ.get('VERIF_SHARD_STATE', 'null'))
+        except ValueError:
+            self.process_state = None
 
     # --- observation bookkeeping -------------------------------------------------
     def ev(self, cls, n=1):
@@ -89,6 +94,8 @@ class Ctx:
     def violation(self, kind, case, detail):
         """Report a refuted execution.  `case` must be enough for replay (JSON-able)."""
         rec = {'kind': kind, 'case': case, 'detail': detail}
+        if self.process_state is not None and self.process_state != {'PYTHONHASHSEED': '0', 'flags': []}:
+            rec['process_state'] = self.process_state       # hash seed / warning filter of the shard (vmon/runner.py): replay runs under the same
         h = getattr(self, 'hostile', None)
         if h is not None:
             # the calling context the hostile layer had set up (vmon/hostile.py): which steps came before, how the call was made
@@ -166,15 +173,43 @@ def assert_repo_tree():
     return f
 
 
+class CpuBudgetExceeded(BaseException):
+    """One monitored call of the library has burnt more CPU time than CPU_BUDGET seconds.  Every call the checks make works on an input of
+    at most a few kilobytes and normally takes well under a millisecond to a few hundred; the budget is five orders of magnitude above the
+    median.  CPU time of the process (time.process_time) is the measure, not the wall clock: it counts work done - also inside the
+    regular-expression engine, where no Python line event fires - and does not grow when the machine is busy with other processes."""
+
+
+CPU_BUDGET = float(os.environ.get('VERIF_CPU_BUDGET', '40'))
+_ACTIVE = []        # process_time() at the entry of the monitored calls in progress (nested: a call made from inside a callback)
+
+
+def _on_sigprof(signum, frame):
+    if _ACTIVE and time.process_time() - _ACTIVE[-1] > CPU_BUDGET:
+        since = _ACTIVE[-1]
+        _ACTIVE[-1] = time.process_time() + 1e9        # raise once per call
+        raise CpuBudgetExceeded('more than %.0f CPU-seconds in one call (%.1f so far)' % (CPU_BUDGET, time.process_time() - since))
+
+
+def install_cpu_guard():
+    "a profiling timer (ITIMER_PROF counts CPU time of the process) that looks at the call in progress every two CPU-seconds"
+    import signal
+    signal.signal(signal.SIGPROF, _on_sigprof)
+    signal.setitimer(signal.ITIMER_PROF, 2.0, 2.0)
+
+
 def call(fn, *a, **kw):
     """Total wrapper: returns ('ok', value) or ('exc', exception).  BaseException other
-    than KeyboardInterrupt/SystemExit is an observation too (injected faults)."""
+    than KeyboardInterrupt/SystemExit is an observation too (injected faults, an exceeded CPU budget)."""
+    _ACTIVE.append(time.process_time())
     try:
         return ('ok', fn(*a, **kw))
     except (KeyboardInterrupt, SystemExit):
         raise
     except BaseException as e:       # noqa: an exception is an observation
         return ('exc', e)
+    finally:
+        _ACTIVE.pop()
 
 
 def exc_site(e):
